@@ -849,6 +849,12 @@ func (in *interp) write(o Op, w *wtxn) string {
 				}
 			}
 		}
+		if r := tbl.Revision(w.txn); r != beforeRev {
+			in.viol("C09", "rev-after-reject", "%s on a table the transaction does not hold was rejected but moved that table's revision from %d to %d", opNames[o.K], beforeRev, r)
+		}
+		if r, want := tbl.Revision(in.db.ReadTxn()), in.cur.tables[t].rev; r != want {
+			in.viol("C09", "rev-after-reject", "%s on a table the transaction does not hold was rejected but the committed revision of that table is now %d (model %d)", opNames[o.K], r, want)
+		}
 		if after := lightDigest(tbl, w.txn); after != before {
 			in.viol("C03", "unlocked-changed", "%s on a table the transaction does not hold changed the table as seen by the transaction", opNames[o.K])
 		}
